@@ -2,7 +2,7 @@
 option x subset of sources, wrong-typed values, and random multi-option combinations against the real `cminx.main`
 (with `cminx.document` stubbed to capture the Settings object), compared with the Lean `Config` model and with the
 statement itself (first source that sets it; documented defaults read from config_default.yaml at run time)."""
-import contextlib, copy, dataclasses, io, itertools, logging, os, random
+import json, contextlib, copy, dataclasses, io, itertools, logging, os, random
 
 import yaml
 import impl
@@ -264,6 +264,14 @@ def config_suite(seed, tier, out, drv):
                 sfile = {k: sv} if useS else {}
                 compare(env, defaults, {k: uv}, sfile, args, flat, out, drv, ('falsy-cli', k, useS))
                 out.note_case(('falsy-cli', k, useS), True); n += 1
+        # an EMPTY value is a value: an empty pattern list in a higher source contributes nothing to the union and hides nothing of the
+        # lower ones; an empty header list / empty string wins like any other value
+        for user, sfile in (({'input.exclude_filters': ['u1', 'u2']}, {'input.exclude_filters': []}), ({'input.exclude_filters': []}, {'input.exclude_filters': ['s1']}),
+                            ({'input.exclude_filters': ['u1']}, {}), ({'input.exclude_filters': []}, {'input.exclude_filters': []}),
+                            ({'rst.prefix': 'U'}, {'rst.prefix': ''}), ({'input.kwargs_doc_trigger_string': 'U'}, {'input.kwargs_doc_trigger_string': ''})):
+            for cli_args, cli_flat in (([], {}), (['-e', 'c1'], {'input.exclude_filters': ['c1']})):
+                compare(env, defaults, user, sfile, cli_args, cli_flat, out, drv, ('empty-value', json.dumps([user, sfile, cli_args], sort_keys=True)))
+                out.note_case(('empty-value', str(user), str(sfile), str(cli_args)), True); n += 1
         out.exhaustive = True
         out.sample(dict(suite='config', option='rst.prefix', user={'rst.prefix': 'U'}, sfile={'rst.prefix': 'S'}, cli=['-p', 'C'], expect='C'))
         # --- wrong-typed values: rejected, never replaced by a lower-priority or default value --------------------------
